@@ -123,7 +123,7 @@ Definition e_c15_biweight_steps (v : val) : val :=
 (* [a; w] -> weighted median *)
 Definition e_c15_wmedian (v : val) : val :=
   match getPair (getList getQ) (getList getQ) v with
-  | Some (a, w) => vQ (weighted_median a w)
+  | Some (a, w) => vQ (wmed a w)
   | None => bad_input
   end.
 
@@ -166,14 +166,16 @@ Definition e_c15_shift_xx (v : val) : val :=
   | _ => bad_input
   end.
 
-(* [hap; build; bins] -> expected flat log2 of every bin *)
+(* [hap|None; build; gstat table; bins] -> expected flat log2 of every bin (hap None: guessed) *)
 Definition e_c15_flat (v : val) : val :=
   match v with
-  | VL [hp; bd; bs] =>
-      match getB hp, getBuild bd, getBins bs with
-      | Some hap, Some (Some build), Some t => vListQ (expect_flat hap build t)
-      | Some _, Some None, Some _ => VErr "Assertion"
-      | _, _, _ => bad_input
+  | VL [hp; bd; gs; bs] =>
+      match getOpt getB hp, getBuild bd, getGstat gs, getBins bs with
+      | Some (Some false), Some _, Some _, Some t => vListQ (expect_flat false None t)   (* the build is not looked at *)
+      | Some (Some hap), Some (Some build), Some _, Some t => vListQ (expect_flat hap build t)
+      | Some None, Some (Some build), Some g, Some t => vListQ (expect_flat_guess (gstat_of g) build t)
+      | Some _, Some None, Some _, Some _ => VErr "Assertion"
+      | _, _, _, _ => bad_input
       end
   | _ => bad_input
   end.
@@ -184,3 +186,7 @@ Definition e_c15_is_auto (v : val) : val :=
   | Some s => VB (is_auto_name s)
   | None => bad_input
   end.
+
+(* () -> [by_chrom default; skip_low default] of center_all (regenerated from the signature) *)
+Definition e_c15_defaults (_ : val) : val :=
+  VL [VB Gen.CenterDefaults.center_by_chrom_default; VB Gen.CenterDefaults.center_skip_low_default].
